@@ -13,6 +13,14 @@ def sh(cmd, **kw):
     return subprocess.run(cmd, shell=True, stdout=subprocess.PIPE, stderr=subprocess.STDOUT, text=True, **kw)
 
 props = [c["property_id"] for c in json.load(open(V + "/MANIFEST.json"))["checks"]]
+# --relevant: run, per area, only the properties whose anchored code the area's patches touch
+# (plus their close neighbours) instead of all twenty
+RELEVANT = {"adcontainer": "C06 C15 C16 C10 C20 C04", "adscalar": "C04 C05 C19 C15 C18 C20",
+            "distnum": "C14 C17 C19 C16 C18", "iterators": "C09 C10 C16 C18 C12 C20",
+            "linalg": "C07 C08 C14 C16 C19 C17", "matrices": "C11 C12 C03 C10 C09 C16",
+            "tensorcore": "C01 C13 C16 C10 C03 C02", "views": "C02 C16 C12 C10 C13 C09"}
+ONLY_RELEVANT = "--relevant" in sys.argv
+sys.argv = [a for a in sys.argv if a != "--relevant"]
 areas = sys.argv[1:] or sorted(os.listdir(H))
 r = sh("git -C /repo worktree add -q %s HEAD" % WT); assert r.returncode == 0, r.stdout
 try:
@@ -25,7 +33,7 @@ try:
                 applied.append(k)
         res = {"applied": applied, "runs": {}}
         env = dict(os.environ, VERIF_REPO=WT)
-        for p in props:
+        for p in (RELEVANT.get(a, " ".join(props)).split() if ONLY_RELEVANT else props):
             c = sh("./check %s --tier quick" % p, cwd=V, env=env, timeout=3600)
             lines = c.stdout.strip().split("\n")
             res["runs"][p] = {"exit": c.returncode, "summary": lines[-1] if lines else "",
